@@ -65,7 +65,7 @@ func (f *Defmethod) Call(s *slip.Scope, args slip.List, depth int) (result slip.
 	switch ta := args[0].(type) {
 	case slip.Symbol:
 		var aux *Aux
-		if fi := slip.FindFunc(string(ta)); fi != nil {
+		if fi := slip.FindFunc(string(ta)); fi != nil && !fi.Undefined() {
 			if aux, _ = fi.Aux.(*Aux); aux == nil {
 				slip.ProgramPanic(s, depth, "%s already names an ordinary function or macro.", ta)
 			}
@@ -238,7 +238,7 @@ func insertMethod(class, super slip.Class, method *slip.Method, combo *slip.Comb
 // DefCallerMethod defines a method for a caller.
 func DefCallerMethod(qualifier string, caller slip.Caller, fd *slip.FuncDoc) *slip.Method {
 	var aux *Aux
-	if fi := slip.FindFunc(fd.Name); fi != nil {
+	if fi := slip.FindFunc(fd.Name); fi != nil && !fi.Undefined() {
 		if aux, _ = fi.Aux.(*Aux); aux == nil {
 			slip.ProgramPanic(slip.NewScope(), 0, "%s already names an ordinary function or macro.", fd.Name)
 		}
